@@ -536,6 +536,9 @@ def cli_overrides(binary, hooks):
     d = tempfile.mkdtemp(prefix="cli-", dir=os.path.join(sut.BUILD_ROOT, "run"))
     cfg = minimal_cfg(binary, port0)
     cfg.pop("password")
+    # the file sets every value the command line then overrides - the log file too
+    filelog = os.path.join(d, "file.log")
+    cfg["log_file"] = filelog
     cfgp = os.path.join(d, "c.toml")
     with open(cfgp, "w") as f:
         f.write(dump_toml(cfg))
@@ -561,6 +564,7 @@ def cli_overrides(binary, hooks):
             c.close()
             time.sleep(0.05)
         out.append(("-L overrides log file", os.path.exists(logf)))
+        out.append(("-L overrides log file: the file's log_file is not used", not os.path.exists(filelog)))
     finally:
         if p.poll() is None:
             p.kill()
